@@ -69,6 +69,68 @@ Theorem C04_one_unsew_vertex_data `{Sig} : forall E n ks l c w cnt w' cnt',
 Proof. exact one_unsew_vertex_data. Qed.
 Print Assumptions C04_one_unsew_vertex_data.
 
+(** Data clause for coordinates through the 2-sew and the 2-unsew.  [merge_effect w w' i1 i2 i'] says: slot [i'] of [w']
+    carries the lawful merge of slots [i1], [i2] of [w] (which exists), the two former slots are emptied unless one of
+    them is [i'], every other slot is untouched (and when [i1 = i2] the value is kept, moved if the identifier changed);
+    [split_effect] is the mirror image with the split law.  The identifiers are orbit minima ([is_vid]) of the map
+    before / after the link ([set2] / [clr2] = the 2-link / 2-unlink applied to the store).  A 2-sew merges the vertex
+    of [l] with the one at the end of [r] and / or the vertex at the end of [l] with the one of [r], depending on which
+    of the two darts has a 1-image: three theorems, the last one with the two merges in sequence. *)
+Theorem C04_two_sew_vertex_data_left `{Sig} : forall E n ks l r c w cnt w' cnt',
+  dom_ok E n -> wf2 n w -> okd n w l -> okd n w r -> l <> r -> beta w 1 l = 0 -> beta w 1 r <> 0 ->
+  run E (two_sew n ks l r) c w cnt = (Done tt, w', cnt') ->
+  exists i1 i2 i',
+    is_vid n w l i1 /\ is_vid n w (beta w 1 r) i2 /\ is_vid n (set2 w l r) l i' /\ merge_effect w w' i1 i2 i'.
+Proof. exact two_sew_vertex_data_left. Qed.
+Print Assumptions C04_two_sew_vertex_data_left.
+
+Theorem C04_two_sew_vertex_data_right `{Sig} : forall E n ks l r c w cnt w' cnt',
+  dom_ok E n -> wf2 n w -> okd n w l -> okd n w r -> l <> r -> beta w 1 l <> 0 -> beta w 1 r = 0 ->
+  run E (two_sew n ks l r) c w cnt = (Done tt, w', cnt') ->
+  exists i1 i2 i',
+    is_vid n w (beta w 1 l) i1 /\ is_vid n w r i2 /\ is_vid n (set2 w l r) r i' /\ merge_effect w w' i1 i2 i'.
+Proof. exact two_sew_vertex_data_right. Qed.
+Print Assumptions C04_two_sew_vertex_data_right.
+
+Theorem C04_two_sew_vertex_data_both `{Sig} : forall E n ks l r c w cnt w' cnt',
+  dom_ok E n -> wf2 n w -> okd n w l -> okd n w r -> l <> r -> beta w 1 l <> 0 -> beta w 1 r <> 0 ->
+  run E (two_sew n ks l r) c w cnt = (Done tt, w', cnt') ->
+  exists i1 i2 i3 i4 iL iR,
+    is_vid n w l i1 /\ is_vid n w (beta w 1 r) i2 /\ is_vid n w (beta w 1 l) i3 /\ is_vid n w r i4 /\
+    is_vid n (set2 w l r) l iL /\ is_vid n (set2 w l r) r iR /\
+    exists wm, merge_effect w wm i1 i2 iL /\ merge_effect wm w' i3 i4 iR.
+Proof. exact two_sew_vertex_data_both. Qed.
+Print Assumptions C04_two_sew_vertex_data_both.
+
+Theorem C04_two_unsew_vertex_data_left `{Sig} : forall E n ks l c w cnt w' cnt',
+  dom_ok E n -> wf2 n w -> okd n w l -> beta w 2 l <> 0 -> beta w 1 l = 0 -> beta w 1 (beta w 2 l) <> 0 ->
+  run E (two_unsew n ks l) c w cnt = (Done tt, w', cnt') ->
+  let r := beta w 2 l in let w1 := clr2 w l r in
+  exists i0 il ir,
+    is_vid n w l i0 /\ is_vid n w1 l il /\ is_vid n w1 (beta w 1 r) ir /\ split_effect w w' i0 il ir.
+Proof. exact two_unsew_vertex_data_left. Qed.
+Print Assumptions C04_two_unsew_vertex_data_left.
+
+Theorem C04_two_unsew_vertex_data_right `{Sig} : forall E n ks l c w cnt w' cnt',
+  dom_ok E n -> wf2 n w -> okd n w l -> beta w 2 l <> 0 -> beta w 1 l <> 0 -> beta w 1 (beta w 2 l) = 0 ->
+  run E (two_unsew n ks l) c w cnt = (Done tt, w', cnt') ->
+  let r := beta w 2 l in let w1 := clr2 w l r in
+  exists i0 il ir,
+    is_vid n w r i0 /\ is_vid n w1 (beta w 1 l) il /\ is_vid n w1 r ir /\ split_effect w w' i0 il ir.
+Proof. exact two_unsew_vertex_data_right. Qed.
+Print Assumptions C04_two_unsew_vertex_data_right.
+
+Theorem C04_two_unsew_vertex_data_both `{Sig} : forall E n ks l c w cnt w' cnt',
+  dom_ok E n -> wf2 n w -> okd n w l -> beta w 2 l <> 0 -> beta w 1 l <> 0 -> beta w 1 (beta w 2 l) <> 0 ->
+  run E (two_unsew n ks l) c w cnt = (Done tt, w', cnt') ->
+  let r := beta w 2 l in let w1 := clr2 w l r in
+  exists j0 jl jr k0 kl kr,
+    is_vid n w l j0 /\ is_vid n w r k0 /\
+    is_vid n w1 l jl /\ is_vid n w1 (beta w 1 r) jr /\ is_vid n w1 (beta w 1 l) kl /\ is_vid n w1 r kr /\
+    exists wm, split_effect w wm j0 jl jr /\ split_effect wm w' k0 kl kr.
+Proof. exact two_unsew_vertex_data_both. Qed.
+Print Assumptions C04_two_unsew_vertex_data_both.
+
 (** Tie to the source: the four programs [one_sew], [one_unsew], [two_sew], [two_unsew] about which the theorems above
     speak are, verbatim, the programs that tools/tr_sews.py regenerates from dim2/sews/one.rs and two.rs on every run
     (Map2/GenSews.v); an edit of those functions changes the generated file and this theorem stops compiling. *)
